@@ -8,7 +8,7 @@ import (
 )
 
 func main() {
-	bin, err := proc.Build("/repo", "/verif", "ts-server", false)
+	bin, err := proc.Build("/repo", "/var/tmp/verif-scratch/smoke", "ts-server", false)
 	if err != nil { fmt.Println(err); os.Exit(2) }
 	dir := "/var/tmp/verif-scratch/smoke"
 	os.RemoveAll(dir)
